@@ -6,7 +6,20 @@ package main
 // docModeCountOK, evaluated by the driver on the IMPLEMENTATION's document and buffer, with what gltf_topo_carried_iff /
 // gltf_mode_index_iff predict from the scene (computed here) — the third value is recomputed here from the parsed document.
 
-import "strconv"
+import (
+	"bytes"
+	"strconv"
+)
+
+// the JSON text of a JSON chunk: everything up to the closing brace of the document (what follows must be blank padding;
+// trimming blanks instead would accept a chunk padded with other bytes)
+func c6JSONText(chunk []byte) []byte {
+	i := bytes.LastIndexByte(chunk, '}')
+	if i < 0 {
+		return chunk
+	}
+	return chunk[:i+1]
+}
 
 // Mesh.PrimitiveCount() for the six declared topologies
 func (m *c6Mesh) primCount() int {
